@@ -17,7 +17,7 @@ func runC14(r *core.Run) {
 	if !ok {
 		return
 	}
-	r.Rule = "the Fault specification's NoBlowup invariant (nothing is allocated from a declared size/count the stream cannot hold; the `trusting` deviation violates it) + every size-like field (size, count, unit count, offset) of every generated container file rewritten with each LARGE value class (0xFFFE, 0xFFFF, 2^30, 2^31-1, 2^32-1, 4097, 1025, +1000, past EOF), the repository samples with seeded mutations, long-token XMP packets and random bytes; each call runs alone on one goroutine between two runtime.ReadMemStats: TotalAlloc delta <= 4 MiB + 16*len"
+	r.Rule = "the Fault specification's NoBlowup invariant (nothing is allocated from a declared size/count the stream cannot hold; the `trusting` deviation violates it) + every size-like field (size, count, unit count, offset) of every generated container file rewritten with each LARGE value class (0xFFFE, 0xFFFF, 2^30, 2^31-1, 2^32-1, 4097, 1025, +1000, past EOF), the repository samples with seeded mutations, long-token XMP packets and random bytes; the Scale specification's AllocBound (deviations `perUnit`, `regrow` violate it) and every Scale case concretised up to 2 MiB per family; each call runs alone on one goroutine between two runtime.ReadMemStats: TotalAlloc delta <= 4 MiB + 16*len"
 	ops := make([]core.Op, len(cases))
 	for i, c := range cases {
 		ops[i] = core.Op{ID: i, Kind: "alloc-call", Data: c.in.Data, Cut: c.cut, Fault: c.fault, Args: callArgsJSON(c.entry), NoRes: true}
